@@ -155,11 +155,14 @@ def premises(ctx, config, w):
                                   (model.T_QUANTITY, {"UnitType", "new", "amount", "unit"}, "Quantity"),
                                   (model.T_HRU, {"REF_UNIT"}, "HasRefUnit")):
         for tk, (extra, imp) in G.overrides(ctx, "override", U, trait, allowed, label).items():
-            if label == "HasRefUnit" and tk in model.AMOUNT_TYPES and extra == ["_fit"]:
-                continue
+            if label == "HasRefUnit" and tk in model.AMOUNT_TYPES:
+                extra = [x for x in extra if x != "_fit"]    # the dimensionless amount: _fit is the identity (its own rule)
             # symbol lookups play no part in the derived operators; overridden scale lookups are evaluated below
             # with the type's own bodies
-            extra = [x for x in extra if x not in ("from_symbol", "unit_from_symbol", "from_scale", "unit_from_scale", "fmt")]
+            extra = [x for x in extra if x in {"HasRefUnit": {"_fit"}, "Quantity": {"iter_units"}}.get(label, set())]
+            if extra:
+                from . import ovequiv
+                extra = ovequiv.filter_equivalent(ctx, "override", config, w, label, tk, extra, imp)
             if not extra:
                 continue
             ctx.fail("override", "%s/%s/%s" % (config, label, tk),
